@@ -10,6 +10,8 @@ Driver ops for the whole pipeline (property C01).
   `{"err": cls, "stage": "parse" | "gen" | "reparse" | "regen", "pos"?: …}`
   (`text2` = the generated text, `equal` = `c == parse(text2)`, `stable` = generating from the re-parsed circuit
   gives `text2` again).
+* `round_trip_layers`: same input → `{"printable": bool, "A": bool, "B": bool, "C": bool}` | `{"err": …}`: the three
+  layer statements of C01 (`Pipeline.layers`) evaluated in the model on the circuit the text parses to.
 -/
 namespace Jaqal.Pipeline
 open Lean Jaqal.Builder
@@ -49,7 +51,14 @@ def opRoundTrip (j : Json) : Jaqal.R Json := do
           pure (jobj [("text2", .str t), ("equal", .bool (PyEq.circuitEq c c2)), ("stable", .bool (t2 == t)),
                       ("circuit2", c2.toJson)])
 
+def opLayers (j : Json) : Jaqal.R Json := do
+  let s ← jstr (← jget j "text")
+  let cfg ← cfgOfJson j
+  match layers cfg s with
+  | .error e => pure (jobj (errFields e))
+  | .ok l => pure (jobj [("printable", .bool l.printable), ("A", .bool l.layerA), ("B", .bool l.layerB), ("C", .bool l.layerC)])
+
 def ops : List (String × (Json → Jaqal.R Json)) :=
-  [("parse_program", opParseProgram), ("round_trip", opRoundTrip)]
+  [("parse_program", opParseProgram), ("round_trip", opRoundTrip), ("round_trip_layers", opLayers)]
 
 end Jaqal.Pipeline
